@@ -71,8 +71,6 @@ class ReadWritePropertyServices(Capability):
                 elif not isinstance(value, datatype.subtype):
                     raise TypeError("invalid result datatype, expecting {0} and got {1}" \
                         .format(datatype.subtype.__name__, type(value).__name__))
-            elif issubclass(datatype, List):
-                value = datatype(value)
             elif not isinstance(value, datatype):
                 raise TypeError("invalid result datatype, expecting {0} and got {1}" \
                     .format(datatype.__name__, type(value).__name__))
